@@ -285,6 +285,44 @@ func c14RequestOf(class string, mk func(method, url, body string) *http.Request)
 	panic("harness: unknown request class " + class)
 }
 
+var c14RealHandler http.Handler
+
+var c14Server = sync.OnceValue(func() *httptest.Server {
+	s := httptest.NewUnstartedServer(http.HandlerFunc(func(w http.ResponseWriter, r *http.Request) { c14RealHandler.ServeHTTP(w, r) }))
+	s.Config.ErrorLog = stdlog.New(io.Discard, "", 0)
+	s.Start()
+	return s
+})
+
+// c14Real sends the request of the case through a real HTTP client to a real net/http server running the gate
+func c14Real(gate http.Handler, req *http.Request, sent string) map[string]any {
+	srv := c14Server()
+	c14RealHandler = gate
+	var body io.Reader
+	if sent != "" {
+		body = strings.NewReader(sent)
+	}
+	r, err := http.NewRequest(req.Method, srv.URL+req.URL.RequestURI(), body)
+	if err != nil {
+		return map[string]any{"ev": "Real", "err": true, "status": 0, "body": ""}
+	}
+	for k, vs := range req.Header {
+		for _, v := range vs {
+			r.Header.Add(k, v)
+		}
+	}
+	resp, err := srv.Client().Do(r)
+	if err != nil {
+		return map[string]any{"ev": "Real", "err": true, "status": 0, "body": ""}
+	}
+	defer resp.Body.Close()
+	b, err := io.ReadAll(resp.Body)
+	if err != nil {
+		return map[string]any{"ev": "Real", "err": true, "status": 0, "body": ""}
+	}
+	return map[string]any{"ev": "Real", "err": false, "status": resp.StatusCode, "body": string(b)}
+}
+
 func c14KeyAuth(_ context.Context, in *openapi3filter.AuthenticationInput) error {
 	if in.RequestValidationInput.Request.Header.Get("X-Key") == "good" {
 		return nil
@@ -303,6 +341,12 @@ func c14Run(c *Case) []any {
 	}
 	var log []any
 	log = append(log, map[string]any{"ev": "cfg", "case": c.Idx, "cfg": tc.Cfg, "script": c14Script(tc.Script)})
+	muted := false // the second pass (real net/http transport) records its response only
+	put := func(m map[string]any) {
+		if !muted {
+			log = append(log, m)
+		}
+	}
 	primer := func(ctx context.Context) bool { return ctx.Value(c14PrimerKey{}) != nil } // callbacks of the OTHER requests are not this run's
 
 	var authFn openapi3filter.AuthenticationFunc // "nofunc" / "noopts": none
@@ -329,7 +373,7 @@ func c14Run(c *Case) []any {
 			case msg == "failed to write response":
 				cls = "writefail"
 			}
-			log = append(log, map[string]any{"ev": "Log", "msg": cls})
+			put(map[string]any{"ev": "Log", "msg": cls})
 		}))
 	} else {
 		// errMode "default": neither OnErr nor OnLog -- the Validator's own errFunc (http.Error) and logFunc (log.Printf)
@@ -348,7 +392,7 @@ func c14Run(c *Case) []any {
 	if tc.Cfg.ErrMode == "custom" {
 		opts = append(opts, openapi3filter.OnErr(func(ctx context.Context, w http.ResponseWriter, status int, code openapi3filter.ErrCode, _ error) {
 			if !primer(ctx) {
-				log = append(log, map[string]any{"ev": "Err", "status": status, "code": int(code)})
+				put(map[string]any{"ev": "Err", "status": status, "code": int(code)})
 			}
 			w.WriteHeader(status)
 			w.Write([]byte("X"))
@@ -366,7 +410,7 @@ func c14Run(c *Case) []any {
 			}
 			return
 		}
-		log = append(log, map[string]any{"ev": "Enter"})
+		put(map[string]any{"ev": "Enter"})
 		// like io.CopyBuffer: every piece goes through one reused buffer (io.Writer implementations must not retain p)
 		chunk := make([]byte, 64)
 		for _, call := range tc.Script {
@@ -382,7 +426,7 @@ func c14Run(c *Case) []any {
 				}
 				h["read"], h["sent"] = string(b), sent
 			}
-			log = append(log, h)
+			put(h)
 			switch call.C {
 			case "SetCT":
 				w.Header().Set("Content-Type", c14CT[call.Ct])
@@ -409,7 +453,7 @@ func c14Run(c *Case) []any {
 	var gate http.Handler
 	if tc.Cfg.Gate == "vhandler" || tc.Cfg.Gate == "vhandler_mw" || tc.Cfg.Gate == "vhandler_def" {
 		other := http.HandlerFunc(func(w http.ResponseWriter, _ *http.Request) {
-			log = append(log, map[string]any{"ev": "Other"}) // the handler behind the OTHER wrapper must never run
+			put(map[string]any{"ev": "Other"}) // the handler behind the OTHER wrapper must never run
 			w.WriteHeader(299)
 		})
 		var base http.Handler = handler
@@ -428,7 +472,7 @@ func c14Run(c *Case) []any {
 		}
 		if tc.Cfg.ErrMode == "custom" {
 			vh.ErrorEncoder = func(_ context.Context, _ error, w http.ResponseWriter) {
-				log = append(log, map[string]any{"ev": "Err", "status": 499, "code": 0})
+				put(map[string]any{"ev": "Err", "status": 499, "code": 0})
 				w.WriteHeader(499)
 				w.Write([]byte("X"))
 			}
@@ -459,7 +503,7 @@ func c14Run(c *Case) []any {
 		gate = v.Middleware(handler)
 		// one Validator, two wrappers: the request goes through the wrapper of the handler under test
 		_ = v.Middleware(http.HandlerFunc(func(w http.ResponseWriter, _ *http.Request) {
-			log = append(log, map[string]any{"ev": "Other"})
+			put(map[string]any{"ev": "Other"})
 			w.WriteHeader(299)
 		}))
 	}
@@ -518,6 +562,23 @@ func c14Run(c *Case) []any {
 	close(stop)
 	wg.Wait()
 	_, hpanic := pv.(c14Sentinel)
+	// Second pass: the same gate and handler behind a real net/http server, asked by a real client.  What that client
+	// receives is logged next to the raw calls of the first pass, so that the specification's ClientModel (its reading of
+	// raw ResponseWriter calls) is itself judged against net/http.  Short behaviours and all with an informational status.
+	realPass := tc.Cfg.Primer == "none" && tc.Cfg.ReqClass != "valid_upgrade" && tc.Cfg.ReqClass != "nf_head" && !panicked
+	if realPass && len(tc.Script) > 2 {
+		realPass = false
+		for _, call := range tc.Script {
+			if call.C == "WH" && call.S < 200 {
+				realPass = true
+			}
+		}
+	}
+	if realPass {
+		muted = true
+		log = append(log, c14Real(gate, req, sent))
+		muted = false
+	}
 	end := map[string]any{"ev": "end", "panic": panicked, "hpanic": hpanic, "finalCt": c14AbsCT(client.h)}
 	if panicked {
 		end["panicMsg"] = msg
